@@ -3,8 +3,10 @@
 (* against Mdl.tla on the same bytes.                                          *)
 EXTENDS Mdl, TraceLib
 
-VARIABLES l, geom, orig     \* per handle: expected geometry; bytes of the opened file
-vars == <<l, geom, orig>>
+VARIABLES l, geom, orig,    \* per handle: expected geometry; bytes of the opened file
+          shp               \* per handle: [known, has]: which (lod, part, shape name) triples were given values since the shapes
+                            \* were last removed; known = nothing else has touched the shape tables or the meshes since
+vars == <<l, geom, orig, shp>>
 Ev == Rec[l]
 Sig(e) == <<e.case>>
 
@@ -51,7 +53,8 @@ Parse(e) ==
   /\ IF e.op = "mdl.open"
      THEN /\ geom' = (e.h :> GeomOf(e.bytes)) @@ geom
           /\ orig' = (e.h :> e.bytes) @@ orig
-     ELSE UNCHANGED <<geom, orig>>
+          /\ shp' = (e.h :> [known |-> FALSE, has |-> {}]) @@ shp
+     ELSE UNCHANGED <<geom, orig, shp>>
 
 \* ---- C07: what must hold of a written file ----------------------------------
 Facts(W, flen, sig) ==
@@ -95,7 +98,7 @@ Write(e) ==
              /\ IF Len(W) = Len(O) /\ W # O
                 THEN Mismatch(l, "mdl-rewrite-bytes", Sig(e), "same bytes", Min({k \in 1..Len(O) : W[k] # O[k]}) - 1) ELSE TRUE
      ELSE TRUE
-  /\ UNCHANGED <<geom, orig>>
+  /\ UNCHANGED <<geom, orig, shp>>
 Replace(e) ==
   LET small == "vertices" \in DOMAIN e
       subsOf == [s \in 1..Len(geom[e.h][e.lod + 1][e.part + 1].subs) |->
@@ -112,15 +115,37 @@ Replace(e) ==
      /\ IF e.settled /\ ~small
         THEN Require(l, "mdl-reparse-echo", Sig(e), e.res.echo_same.some /\ e.res.echo_same.v) ELSE TRUE
      /\ geom' = [geom EXCEPT ![e.h] = g2] /\ UNCHANGED orig
+     /\ shp' = [shp EXCEPT ![e.h].known = FALSE]         \* new geometry can leave shape values stale: nothing is claimed until the next removal
 \* shape edits do not change vertices already present, indices or sub-meshes (added vertices are appended)
+\* after a removal, a part reports exactly the shapes that were given values on it since (in the library's re-parse
+\* and in the specification's reading of the written bytes)
+NamesOf(sq) == {sq[k] : k \in 1..Len(sq)}
+ShapeSetsAgree(e, has, sig) ==
+  IF ~(IsSome(e.res.written) /\ IsSome(e.res.reparsed)) THEN TRUE
+  ELSE LET W == e.res.written.v.v
+           L == Layout(W)
+           o == e.res.reparsed.v.v
+       IN \A i \in 1..Len(o.lods) : \A p \in 1..Len(o.lods[i].parts) :
+            LET want == {t[3] : t \in {u \in has : u[1] = i /\ u[2] = p}}
+            IN /\ Expect(l, "mdl-shape-set", sig \o <<i, p>>, want, NamesOf(o.lods[i].parts[p].shapes))
+               /\ IF Len(W) = e.res.written.v.len /\ i <= L.nLod
+                  THEN Expect(l, "mdl-shape-set-written", sig \o <<i, p>>, want,
+                              NamesOf(ShapeNames(W, L, i, MeshRec(W, L, LodRec(W, L, i).mesh_index + p - 1))))
+                  ELSE TRUE
 ShapeEdit(e) ==
   /\ Require(l, "mdl-edit-outcome", Sig(e), IsValue(e.res.edit))
-  /\ IF e.op = "mdl.remove_shapes" THEN Written(e, geom[e.h], Sig(e)) /\ UNCHANGED geom
+  /\ IF e.op = "mdl.remove_shapes"
+     THEN /\ Written(e, geom[e.h], Sig(e)) /\ UNCHANGED geom
+          /\ shp' = [shp EXCEPT ![e.h] = [known |-> TRUE, has |-> {}]]
+          /\ ShapeSetsAgree(e, {}, Sig(e))
      ELSE LET old == geom[e.h][e.lod + 1][e.part + 1]
               nw == [old EXCEPT !.nv = old.nv + Len(e.values),
                                 !.vertices = old.vertices \o [k \in 1..Len(e.values) |-> e.values[k].vertex]]
               g2 == [geom[e.h] EXCEPT ![e.lod + 1][e.part + 1] = nw]
+              has2 == shp[e.h].has \cup (IF Len(e.values) > 0 THEN {<<e.lod + 1, e.part + 1, e.shape_name>>} ELSE {})
           IN /\ Written(e, g2, Sig(e)) /\ geom' = [geom EXCEPT ![e.h] = g2]
+             /\ shp' = [shp EXCEPT ![e.h].has = has2]
+             /\ IF shp[e.h].known THEN ShapeSetsAgree(e, has2, Sig(e)) ELSE TRUE
              \* the shape now has values on this mesh: its name is reported for the part, by the library and by the
              \* specification's reading of the written bytes
              /\ IF IsSome(e.res.written) /\ IsSome(e.res.reparsed) /\ Len(e.values) > 0
@@ -138,14 +163,14 @@ ShapeEdit(e) ==
                 ELSE TRUE
   /\ UNCHANGED orig
 
-Init == l = 1 /\ geom = <<>> /\ orig = <<>>
+Init == l = 1 /\ geom = <<>> /\ orig = <<>> /\ shp = <<>>
 Next ==
   /\ l <= Len(Rec)
   /\ CASE Ev.op \in {"mdl.parse", "mdl.open"} -> Parse(Ev)
        [] Ev.op = "mdl.write" -> Write(Ev)
        [] Ev.op = "mdl.replace" -> Replace(Ev)
        [] Ev.op \in {"mdl.remove_shapes", "mdl.add_shape"} -> ShapeEdit(Ev)
-       [] OTHER -> BadCase(l, "unknown event") /\ UNCHANGED <<geom, orig>>
+       [] OTHER -> BadCase(l, "unknown event") /\ UNCHANGED <<geom, orig, shp>>
   /\ l' = l + 1
 Spec == Init /\ [][Next]_vars
 =============================================================================
